@@ -280,6 +280,26 @@ Definition sql_read_changes (typ : bytes) (now h : N) (desc : bool) (t : tables)
   let l := filter (fun r => lrow_type_ok typ r && (l_ts r + h <=? now)) (tl t) in
   if desc then rev l else l.
 
+(* ReadChanges with a continuation token (ulid > token) and LIMIT page size; positions = ulids *)
+Fixpoint index_from {A : Type} (i : nat) (l : list A) : list (nat * A) :=
+  match l with [] => [] | x :: l' => (i, x) :: index_from (S i) l' end.
+Definition sql_read_page (typ : bytes) (now h : N) (from ps : nat) (t : tables) : list lrow * nat :=
+  let all := filter (fun p => lrow_type_ok typ (snd p) && (l_ts (snd p) + h <=? now) && (from <? fst p)%nat)
+                    (index_from 1 (tl t)) in
+  let pg := firstn ps all in
+  (map snd pg, last (map fst pg) from).
+Fixpoint sql_follow_tokens (typ : bytes) (horizon : N) (ps : nat) (nows : list N) (tok : nat) (t : tables)
+  : list (list lrow) * nat :=
+  match nows with
+  | [] => ([], tok)
+  | now :: ns =>
+      let '(pg, tok') := sql_read_page typ now horizon tok ps t in
+      match pg with
+      | [] => ([], tok')
+      | _ => let '(pgs, t') := sql_follow_tokens typ horizon ps ns tok' t in (pg :: pgs, t')
+      end
+  end.
+
 (* on_duplicate=ignore, same observable condition, yet proto.Equal says "different": the stored
    context-less condition reads back with an empty context, the request carries a nil one *)
 Definition trig_sql_ctx (ondup : opt) (wrs : list witem) (t : tables) : bool :=
